@@ -39,7 +39,7 @@ pub struct Case {
     pub tag: String,
 }
 
-pub const POINT_ADV: [&str; 8] = ["pass", "rerandomised-representation", "negated", "doubled", "G", "off-curve(y+1)", "point-cancelling-the-peer-key", "point-at-infinity"];
+pub const POINT_ADV: [&str; 9] = ["pass", "rerandomised-representation", "negated", "doubled", "G", "off-curve(y+1)", "point-cancelling-the-peer-key", "point-at-infinity", "affine-as-decoded-from-the-wire"];
 pub const HASH_ADV: [&str; 5] = ["pass", "flip-first-bit", "flip-last-bit", "all-zero", "forged-for-zero-shared-point"];
 
 fn adv_point(p: &Point, code: u16, seed: u64, cancel: Option<&String>) -> Point {
@@ -48,6 +48,11 @@ fn adv_point(p: &Point, code: u16, seed: u64, cancel: Option<&String>) -> Point 
     match code {
         6 => lib_point_affine(&sm2::g_mul(&hb(cancel.expect("cancel scalar")))),
         7 => lib_point(&None, &BigUint::one()),
+        // what a peer that received 04||x||y over the wire hands in: the same point with Z = 1
+        8 => match gm_sm2::verif::point_from_byte(&sm2::encode_point(&r, false)) {
+            Ok(q) => q,
+            Err(_) => lib_point_affine(&r),
+        },
         0 => *p,
         1 => lib_point(&r, &SplitMix::new(seed, "c15lambda").nonzero_below(&pr.p)),
         2 => lib_point_affine(&pr.curve.neg(&r)),
@@ -280,8 +285,126 @@ pub fn eval(ctx: &Ctx, case: &Case) {
     }
 }
 
+/// Several runs on ONE pair of `Exchange` objects. Run kinds: 0 honest (A initiates), 1 honest with the roles swapped
+/// (B's object initiates), 2 abandoned after exchange_2, 3 S_B altered (exchange_3 must fail), 4 off-curve R_A
+/// (exchange_2 must fail). Every honest run must produce the standard's values for its own ephemeral scalars,
+/// whatever the objects went through before.
+#[derive(Serialize, Deserialize, Clone, Debug)]
+pub struct Session {
+    pub cfg: Config,
+    pub runs: Vec<u8>,
+}
+/// wrapper so that a session serialises as {"Session": {...}} in prefixes and replay records
+#[derive(Serialize, Deserialize, Clone, Debug)]
+pub enum SessCase {
+    Session(Session),
+}
+pub const RUN_KINDS: [&str; 5] = ["honest", "honest-roles-swapped", "abandoned-after-exchange_2", "S_B-altered", "R_A-off-curve"];
+
+pub fn eval_session(ctx: &Ctx, sess: &Session) {
+    ctx.state();
+    let cj = || json!({"Session": sess});
+    let cfg = &sess.cfg;
+    let (da, db) = (hb(&cfg.da), hb(&cfg.db));
+    let (ska, skb) = (private_key(&da), private_key(&db));
+    let (pka, pkb) = (ska.public_key, skb.public_key);
+    let (pa_ref, pb_ref) = (sm2::g_mul(&da), sm2::g_mul(&db));
+    let (za, zb) = (sm2::za(&id_bytes(&cfg.ida), &pa_ref), sm2::za(&id_bytes(&cfg.idb), &pb_ref));
+    let n = &sm2::params().n;
+    let mk = guard(|| (Exchange::new(cfg.klen, cfg.ida.as_deref(), &pka, &ska, cfg.idb.as_deref(), &pkb), Exchange::new(cfg.klen, cfg.idb.as_deref(), &pkb, &skb, cfg.ida.as_deref(), &pka)));
+    let (mut alice, mut bob) = match mk {
+        Guard::Done((Ok(a), Ok(b))) => (a, b),
+        _ => return,
+    };
+    ctx.depth(sess.runs.len() as u64);
+    let mut g = SplitMix::new(ctx.seed, "c15session");
+    let history: Vec<&str> = sess.runs.iter().map(|k| RUN_KINDS[*k as usize]).collect();
+    for (i, kind) in sess.runs.iter().enumerate() {
+        let (r1, r2) = (g.nonzero_below(&(n - 2u32)), g.nonzero_below(&(n - 2u32)));
+        let swapped = *kind == 1;
+        // (initiator object, responder object) and the reference data of each
+        let (ini, res) = if swapped { (&mut bob, &mut alice) } else { (&mut alice, &mut bob) };
+        let (d_i, z_i, p_i, d_r, z_r, p_r) = if swapped { (&db, &zb, &pb_ref, &da, &za, &pa_ref) } else { (&da, &za, &pa_ref, &db, &zb, &pb_ref) };
+        let cls = |what: &str| format!("session/{}/after-{}", what, if i == 0 { "nothing".to_string() } else { RUN_KINDS[sess.runs[i - 1] as usize].to_string() });
+        let detail = format!("run {} of {:?}", i + 1, history);
+        let (ra, _) = with_rng(vec![cand(&r1)], || ini.exchange_1());
+        ctx.call();
+        let ra_pt = match ra {
+            Guard::Done(Ok(p)) if ref_point(&p) == sm2::g_mul(&r1) => p,
+            other => {
+                ctx.violation("Exchange::exchange_1", &cls("R_A-is-not-[r_A]G"), format!("{} -> {}", detail, gdbg(&other.map(|r| r.map(|p| ref_point(&p))))), cj());
+                return;
+            }
+        };
+        let ra_del = if *kind == 4 { adv_point(&ra_pt, 5, ctx.seed, None) } else { ra_pt };
+        let (rb, _) = with_rng(vec![cand(&r2)], || res.exchange_2(&ra_del));
+        ctx.call();
+        ctx.trace();
+        if *kind == 4 {
+            match rb {
+                Guard::Done(Err(_)) => continue,
+                other => {
+                    ctx.violation("Exchange::exchange_2", &cls("off-curve-R_A-accepted"), format!("{} -> {}", detail, gdbg(&other.map(|r| r.map(|_| ())))), cj());
+                    return;
+                }
+            }
+        }
+        let want_r = sm2::kex_party(false, d_r, &r2, z_r, p_i, &sm2::g_mul(&r1), z_i, cfg.klen).expect("responder view");
+        let want_i = sm2::kex_party(true, d_i, &r1, z_i, p_r, &sm2::g_mul(&r2), z_r, cfg.klen).expect("initiator view");
+        let (rb_pt, sb) = match rb {
+            Guard::Done(Ok((p, sb))) if ref_point(&p) == sm2::g_mul(&r2) && sb == want_r.s_b => (p, sb),
+            other => {
+                ctx.violation("Exchange::exchange_2", &cls("R_B/S_B-not-GBT32918.3"), format!("{} -> {}", detail, gdbg(&other.map(|r| r.map(|(p, sb)| (ref_point(&p), hex::encode(sb)))))), cj());
+                return;
+            }
+        };
+        if *kind == 2 {
+            continue;
+        }
+        let mut sb_del = sb;
+        if *kind == 3 {
+            sb_del[7] ^= 0x10;
+        }
+        let r3 = guard(|| ini.exchange_3(&rb_pt, sb_del));
+        ctx.call();
+        if *kind == 3 {
+            match r3 {
+                Guard::Done(Err(_)) => continue,
+                other => {
+                    ctx.violation("Exchange::exchange_3", &cls("altered-S_B-accepted"), format!("{} -> {}", detail, gdbg(&other.map(|r| r.map(hex::encode)))), cj());
+                    return;
+                }
+            }
+        }
+        let sa = match r3 {
+            Guard::Done(Ok(sa)) if sa == want_i.s_a => sa,
+            other => {
+                ctx.violation("Exchange::exchange_3", &cls("honest-run-refused-or-S_A-not-GBT32918.3"), format!("{} -> {}", detail, gdbg(&other.map(|r| r.map(hex::encode)))), cj());
+                return;
+            }
+        };
+        let r4 = guard(|| res.exchange_4(sa, &ra_pt));
+        ctx.call();
+        if !matches!(r4, Guard::Done(Ok(true))) {
+            ctx.violation("Exchange::exchange_4", &cls("honest-run-not-confirmed"), format!("{} -> {}", detail, gdbg(&r4)), cj());
+            return;
+        }
+        let (ki, kr) = (gm_sm2::verif::exchange_key(ini), gm_sm2::verif::exchange_key(res));
+        if ki.as_deref() != Some(&want_i.k[..]) || kr.as_deref() != Some(&want_r.k[..]) {
+            ctx.violation("Exchange", &cls("key-not-GBT32918.3"), format!("{} K_initiator={:?} K_responder={:?} want={}", detail, ki.map(hex::encode), kr.map(hex::encode), hex::encode(&want_i.k)), cj());
+            return;
+        }
+    }
+    ctx.outcome(&format!("session-ok/{}-runs/last={}", sess.runs.len(), sess.runs.last().map(|k| RUN_KINDS[*k as usize]).unwrap_or("none")));
+}
+
 pub fn replay(ctx: &Arc<Ctx>, v: &Value) {
     if crate::cold::replay(ctx, v) {
+        return;
+    }
+    if let Some(sv) = v.get("Session") {
+        let sess: Session = serde_json::from_value(sv.clone()).expect("C15 session");
+        eval_session(ctx, &sess);
         return;
     }
     let c: Case = serde_json::from_value(v.clone()).expect("C15 case");
@@ -290,14 +413,14 @@ pub fn replay(ctx: &Arc<Ctx>, v: &Value) {
 
 /// which adversary choices are possible after `adv` (static protocol semantics; see module doc)
 fn next_choices(adv: &[u16]) -> Vec<u16> {
-    let honest_pt = |c: u16| c <= 1;
+    let honest_pt = |c: u16| c <= 1 || c == 8;
     match adv.len() {
-        0 => vec![0, 1, 2, 3, 4, 5, 7],
+        0 => vec![0, 1, 2, 3, 4, 5, 7, 8],
         1 => {
             if adv[0] == 5 || adv[0] == 7 {
                 vec![]
             } else {
-                vec![0, 1, 2, 3, 4, 5, 7]
+                vec![0, 1, 2, 3, 4, 5, 7, 8]
             }
         }
         2 => (0..4).collect(),
@@ -308,7 +431,7 @@ fn next_choices(adv: &[u16]) -> Vec<u16> {
                 vec![]
             }
         }
-        4 => vec![0, 1, 2, 3, 4, 5, 7],
+        4 => vec![0, 1, 2, 3, 4, 5, 7, 8],
         _ => vec![],
     }
 }
@@ -316,7 +439,7 @@ fn next_choices(adv: &[u16]) -> Vec<u16> {
 pub fn run(ctx: &Arc<Ctx>) {
     refmodels::selftest::run(&["sm3", "sm2"]).unwrap_or_else(|e| ctx.machinery_error(format!("reference self-test failed: {}", e)));
     let n = sm2::params().n.clone();
-    ctx.set_rule("stateright BFS over all man-in-the-middle choice sequences on the real Exchange objects: R_A->B, R_B->A in {pass, re-randomised Jacobian representation, -R, 2R, G, off-curve, point at infinity}, S_B->A, S_A->B in {pass, first bit flipped, last bit flipped, all-zero}, R_A handed to exchange_4 in the 6 point choices; every subset of the messages altered x every kind, per configuration (key pairs {Annex, (1,n-2), (n-2,2), seeded} x IDs x klen). Honest paths additionally for every klen 1..=200 and the nonce product r_A x r_B; every single-bit flip of S_B and of S_A on otherwise honest runs; keys crafted so that the peer's P + [x-bar]R' is the point at infinity for an adversary-chosen R' (the shared point is O: both roles must report failure, also against an S_B forged for a zero point). Invariant: honest deliveries (incl. re-randomised) give both sides the reference K (w=127), S_B, S_A (one-byte tags) and exchange_4 = true; any altered message makes the receiving step fail; off-curve points are refused by the step that receives them; a panic is a violation. ephemeral scalars fixed through the RNG seam.");
+    ctx.set_rule("stateright BFS over all man-in-the-middle choice sequences on the real Exchange objects: R_A->B, R_B->A in {pass, re-randomised Jacobian representation, affine as decoded from the wire, -R, 2R, G, off-curve, point at infinity}, S_B->A, S_A->B in {pass, first bit flipped, last bit flipped, all-zero}, R_A handed to exchange_4 in the 6 point choices; every subset of the messages altered x every kind, per configuration (key pairs {Annex, (1,n-2), (n-2,2), seeded} x IDs x klen). Honest paths additionally for every klen 1..=200 and the nonce product r_A x r_B; every single-bit flip of S_B and of S_A on otherwise honest runs; keys crafted so that the peer's P + [x-bar]R' is the point at infinity for an adversary-chosen R' (the shared point is O: both roles must report failure, also against an S_B forged for a zero point). Invariant: honest deliveries (incl. re-randomised) give both sides the reference K (w=127), S_B, S_A (one-byte tags) and exchange_4 = true; any altered message makes the receiving step fail; off-curve points are refused by the step that receives them; a panic is a violation. ephemeral scalars fixed through the RNG seam. Sessions: every sequence of <= 3 (thorough 4) runs over {honest, honest with roles swapped, abandoned after exchange_2, S_B altered, off-curve R_A} on one pair of Exchange objects - every honest run must yield the standard's values for its own ephemeral scalars.");
     let mut g = SplitMix::new(ctx.seed, "c15");
     let annex = ("81EB26E941BB5AF16DF116495F90695272AE2CD63D6C4AE1678418BE48230029", "785129917D45A9EA5437A59356B82338EAADDA6CEB199088F14AE10DEFA229B5", "D4DE15474DB74D06491C440D305E012400990F3E390C7E87153C12DB2EA60BB3", "7E07124814B309489125EAED101113164EBF0F3458C5BD88335C1F9D596243D6");
     let seeded: Vec<BigUint> = (0..4).map(|_| g.nonzero_below(&(&n - 2u32))).collect();
@@ -388,6 +511,18 @@ pub fn run(ctx: &Arc<Ctx>) {
     }
     ctx.sample(serde_json::to_value(&cases[15]).unwrap());
     run_cases(ctx, &cases, 4, eval);
+    // ---- sessions: every sequence of <= L runs over the five run kinds on ONE pair of Exchange objects
+    {
+        let depth = ctx.tier.pick(3usize, 4);
+        let (st, hists) = explore_collect(vec![vec![0u16], vec![1u16]], Box::new(move |h: &[u16]| if h.len() - 1 < depth { (0..RUN_KINDS.len() as u16).collect() } else { vec![] }));
+        let sessions: Vec<SessCase> = hists.iter().filter(|h| h.len() > 1).map(|h| SessCase::Session(Session { cfg: cfgs[(h[0] as usize * klens.len()) % cfgs.len()].clone(), runs: h[1..].iter().map(|x| *x as u8).collect() })).collect();
+        ctx.cov("session_model", json!({"run_kinds": RUN_KINDS, "max_runs_per_session": depth, "unique_states": st.unique_states, "sessions_judged": sessions.len()}));
+        ctx.sample(serde_json::to_value(&sessions[sessions.len() - 1]).unwrap());
+        run_cases(ctx, &sessions, 4, |c, s| {
+            let SessCase::Session(s) = s;
+            eval_session(c, s)
+        });
+    }
     // the GM/T 0003.5 key-exchange example is configuration 0 (tag "annex"); the reference it is compared with
     // reproduces the Annex values K, S_B, S_A in its start-up self-test
     crate::cold::check(ctx, "C15");
